@@ -182,6 +182,7 @@ struct Builder {
     std::vector<double> corner;  // junction angles between consecutive sections (0 = tangent continuous)
     std::string desc;
     std::string construct_fail;  // a construction call did not store the section it was asked for
+    std::vector<double> prev_w, prev_o;
     int construct_checked = 0;
 
     std::vector<Interpolation> wi, oi;
@@ -228,6 +229,12 @@ static void one_call(Builder& B, bool allow_corner) {
     if ((kind == 0 || kind == 1 || kind == 2) && allow_corner && last_straight && g.chance(60)) turn = ((double)g.range(-60, 60)) * M_PI / 180;
     // a corner is only made between two sections whose centre lines are straight
     B.pick(wp, op, kind <= 2);
+    B.prev_w.assign(B.n, 0.0);
+    B.prev_o.assign(B.n, 0.0);
+    for (uint64_t el = 0; el < B.n; el++) {
+        B.prev_w[el] = rp.elements[el].end_width;
+        B.prev_o[el] = rp.elements[el].end_offset;
+    }
     Vec2 c = rp.end_point;
     bool rel = g.coin();
     double hh = h + turn;
@@ -345,6 +352,35 @@ static void one_call(Builder& B, bool allow_corner) {
         rp.commands(v.data(), v.size());
         B.desc += "commands ";
     }
+    // construction oracle, widths and offsets: every section the call appended carries, per element, the interpolation that was
+    // passed (or, with no argument, the constant value the element ended with before the call)
+    if (B.construct_fail.empty() && kind != 10 && kind < 12)
+        for (uint64_t si = before; si < rp.subpath_array.count && B.construct_fail.empty(); si++)
+            for (uint64_t el = 0; el < B.n && B.construct_fail.empty(); el++)
+                for (int which = 0; which < 2; which++) {
+                    const Array<Interpolation>& arr2 = which == 0 ? rp.elements[el].width_array : rp.elements[el].offset_array;
+                    const Interpolation* passed = which == 0 ? wp : op;
+                    if (arr2.count != rp.subpath_array.count) {
+                        snprintf(buf, sizeof buf, "element %d holds %d %s interpolations for %d sections", (int)el, (int)arr2.count, which ? "offset" : "width", (int)rp.subpath_array.count);
+                        B.construct_fail = buf;
+                        break;
+                    }
+                    const Interpolation& got = arr2[si];
+                    bool okw;
+                    if (passed) {
+                        const Interpolation& w0 = passed[el];
+                        okw = got.type == w0.type && (w0.type == InterpolationType::Constant ? got.value == w0.value
+                                                                                            : (got.initial_value == w0.initial_value && got.final_value == w0.final_value));
+                    } else {
+                        double prev = which == 0 ? B.prev_w[el] : B.prev_o[el];
+                        okw = got.type == InterpolationType::Constant && got.value == prev;
+                    }
+                    if (!okw) {
+                        snprintf(buf, sizeof buf, "section %d element %d: the %s interpolation stored is not the one the call (%s, last word) was given", (int)si, (int)el,
+                                 which ? "offset" : "width", B.desc.c_str());
+                        B.construct_fail = buf;
+                    }
+                }
     // construction oracle: the stored section / the new end point against the arguments of the call
     if (B.construct_fail.empty() && rp.subpath_array.count > before) {
         double sc = 1;
